@@ -54,6 +54,12 @@ void __wrap_arc4random_buf (void *buf, size_t n)
   for (size_t i = 0; i < n; i++) b[i] = os_pos < os_len ? os_bytes[os_pos++] : 0;
 }
 
+/* errno value on entry to the next library calls (ERRNO op): the answer of a call must not depend on what
+   earlier calls, of the library or of the application, left in errno (C07) */
+static __thread int entry_errno;   /* -1: keep whatever the previous library call left (an application that never clears errno) */
+static __thread int last_errno;
+#define ENTRY_ERRNO (entry_errno == -1 ? last_errno : entry_errno)
+
 /* ---------- helpers ---------- */
 static int hexval (int c)
 {
@@ -129,6 +135,8 @@ static void dispatch (int n, char **tok)
   else if (!strcmp (tok[0], "KE")) op_checksalt_enum (n, tok);
   else if (!strcmp (tok[0], "P")) op_preferred (n, tok);
   else if (!strcmp (tok[0], "CFG")) printf ("ok\n");
+  else if (!strcmp (tok[0], "ERRNO") && n >= 2)
+    { entry_errno = !strcmp (tok[1], "ERANGE") ? ERANGE : !strcmp (tok[1], "EINVAL") ? EINVAL : !strcmp (tok[1], "ENOMEM") ? ENOMEM : !strcmp (tok[1], "keep") ? -1 : atoi (tok[1]); printf ("ok\n"); }
   else if (!strcmp (tok[0], "OS")) { int isn; size_t l; unsigned char *p = unhex (tok[1], &l, &isn);
       os_real = isn; os_len = l > sizeof os_bytes ? sizeof os_bytes : l; os_pos = 0;
       if (p) { memcpy (os_bytes, p, os_len); free (p); } printf ("ok\n"); }
